@@ -48,6 +48,21 @@ def update (addFirst : Bool) (new : Nat) (olds : List Nat) : List (Instr Nat OIn
   if addFirst then [.add new (olds.map fun o => (true, o))]
   else rmsInstr new (olds.filter (· ≠ new)) ++ [.add new []]
 
+/-- what `resolve_op_heads` decides under the lock when it sees several heads: the head to add and
+    the heads to remove.  One head survives the filter → re-add it, remove the ancestors.  Otherwise
+    the resolver creates the merge operation `new` (event argument; its parents must be exactly the
+    filtered heads) → add it, remove ancestors and parents. -/
+def resolvePlan (G : Dag) (heads : List Nat) (arg : List Nat) : Option (Nat × List Nat) :=
+  match filterHeads G heads with
+  | [h] => some (h, ancestorHeads G heads)
+  | f =>
+    match arg with
+    | [new] =>
+      if new < G.length && !heads.contains new && sameSet (parents G new) f
+      then some (new, ancestorHeads G heads ++ parents G new)
+      else none
+    | _ => none
+
 /-- `resolve_op_heads`.  Local state = the operation the call returns.  The event argument of the
     locked read is the number of the merge operation the resolver is about to create (if any). -/
 def expand (addFirst : Bool) (G : Dag) : OInstr → List Nat → List Nat → Nat → Option (Nat × List (Instr Nat OInstr))
@@ -58,17 +73,9 @@ def expand (addFirst : Bool) (G : Dag) : OInstr → List Nat → List Nat → Na
     | _ =>
       if !locked then some (loc, [.lock, .client (.read true)])
       else
-        let f := filterHeads G heads
-        let a := ancestorHeads G heads
-        match f with
-        | [h] => some (h, update addFirst h a)
-        | _ =>
-          match arg with
-          | [new] =>
-            if new < G.length && !heads.contains new && sameSet (parents G new) f
-            then some (new, update addFirst new (a ++ parents G new))
-            else none
-          | _ => none
+        match resolvePlan G heads arg with
+        | none => none
+        | some (t, olds) => some (t, update addFirst t olds)
 
 def pick (arg : List Nat) (pend : List Nat) : Option Nat :=
   match arg with
